@@ -529,14 +529,17 @@ class Evolver(object):
             self.version = version
 
         try:
-            version.save(using=self.database_name)
+            # The version and the evolutions it applied must be saved
+            # together, or not at all.
+            with atomic(using=self.database_name):
+                version.save(using=self.database_name)
 
-            if new_evolutions:
-                for evolution in new_evolutions:
-                    evolution.version = version
+                if new_evolutions:
+                    for evolution in new_evolutions:
+                        evolution.version = version
 
-                Evolution.objects.using(self.database_name).bulk_create(
-                    new_evolutions)
+                    Evolution.objects.using(self.database_name).bulk_create(
+                        new_evolutions)
         except Exception as e:
             raise EvolutionExecutionError(
                 _('Error saving new evolution version information: %s')
